@@ -14,7 +14,7 @@
 From Coq Require Import Lia.
 From ChitchatModel Require Import Base SMap Ids Bytes Params NodeState Stream DeltaWire Message Cluster
   FD Chitchat World Monitors SMap_lemmas NodeState_lemmas Inv Compute_lemmas NodeInv Truth NodeTruth Weak Exact
-  Reach ReachExact GExec.
+  Reach ReachExact GExec Monitors_lemmas.
 
 Section C02.
   Variable zc : bytes -> option bytes.
@@ -159,7 +159,17 @@ End C02.
     = Some (Some (mkCopy 4 3 3 [(kj, mkVV [x31] 1 SSet)]), Some (mkCopy 4 3 3 [(kj, mkVV [x31] 1 SSet)])).
   Proof. vm_compute. reflexivity. Qed.
 
+(* the boolean monitor evaluated on the implementation's copies (extract/monitor.ml: c02_ok, with the
+   ledger of the owner's own API calls as the truth) is exactly the statement above *)
+Theorem C02_monitor_is_the_statement : forall L c, versions_distinct L ->
+  (c02_ok L c = true <->
+   forall k w, ledger_latest L k w -> lw_ver w <= c_max c ->
+     (exists v, kget k (c_kvs c) = Some v /\ entry_of k v = w) \/
+     (mscheduled (lw_st w) = true /\ lw_ver w <= c_gc c /\ kget k (c_kvs c) = None)).
+Proof. exact c02_ok_iff. Qed.
+
 Print Assumptions C02_exact_up_to_frontier.
+Print Assumptions C02_monitor_is_the_statement.
 Print Assumptions C02_no_resurrection.
 Print Assumptions C02_messages_in_flight_exact.
 Print Assumptions C02_strict_runs_are_exact.
